@@ -2,7 +2,7 @@
    read_col v1/v2 call shapes, schema level computation, map zipping).  Values are naturals
    (the harness maps every physical value to its index in a per-case value table). *)
 From Coq Require Import NArith ZArith List String Bool.
-From Pq Require Import Base.Bytes Format.Nested Impl.CAssemble Proofs.CAssembleProofs Extract.Sx.
+From Pq Require Import Base.Bytes Format.Nested Impl.CAssemble Impl.CAssembleFixed Proofs.CAssembleProofs Extract.Sx.
 Import ListNotations.
 Open Scope string_scope.
 
@@ -149,7 +149,31 @@ Definition h_v2_branch (a : list sx) : sx :=
   | _ => err "arity"
   end.
 
+(* the model of the PROPOSED REPAIR (Impl/CAssembleFixed.v); used only when the check is pointed at a
+   tree whose cencoding.c carries the equivalent edit (VERIF_C15_REPAIRED=1, see notes/C15.md) *)
+Definition h_assemble_page_fx (a : list sx) : sx :=
+  match a with
+  | [null; md; ar; prev; p] =>
+    match as_bool null, as_N md, as_list_of as_row ar, as_nat prev, as_page p with
+    | Some null, Some md, Some ar, Some prev, Some p =>
+      s_ares (fun r => SL [slist s_row (fst r); snat (snd r)]) (assemble_page_fx null md ar prev p)
+    | _, _, _, _, _ => err "args"
+    end
+  | _ => err "arity"
+  end.
+
+Definition h_run_v1_fx (a : list sx) : sx :=
+  match a with
+  | [ro; eo; n; pages] =>
+    match as_bool ro, as_bool eo, as_nat n, as_list_of as_page pages with
+    | Some ro, Some eo, Some n, Some pages => s_ares (slist s_row) (run_v1_fx (mkShape ro eo) n pages)
+    | _, _, _, _ => err "args"
+    end
+  | _ => err "arity"
+  end.
+
 Definition table : list (string * handler) :=
   [("shred", h_shred); ("assemble_spec", h_assemble_spec); ("assemble_page", h_assemble_page);
    ("run_v1", h_run_v1); ("run_v2", h_run_v2); ("sch", h_sch); ("shape_levels", h_shape_levels);
-   ("zip_maps", h_zip_maps); ("split_guard", h_split_guard); ("v2_branch", h_v2_branch)].
+   ("zip_maps", h_zip_maps); ("split_guard", h_split_guard); ("v2_branch", h_v2_branch);
+   ("assemble_page_fx", h_assemble_page_fx); ("run_v1_fx", h_run_v1_fx)].
